@@ -706,11 +706,18 @@ func monC24(h *Hist, o *TxnObs) {
 	if fn == "add_free_storage_assigner" && o.Outcome == "success" {
 		// registrations the monitor saw applied: name -> public key (the key markers of that assigner must verify under)
 		var in struct {
-			Name      string `json:"name"`
-			PublicKey string `json:"public_key"`
+			Name      string  `json:"name"`
+			PublicKey string  `json:"public_key"`
+			Indiv     float64 `json:"individual_limit"`
+			Total     float64 `json:"total_limit"`
 		}
 		if json.Unmarshal(o.Txn.InputData, &in) == nil {
 			model.Key[in.Name] = in.PublicKey
+			// the limits this registration declares, in tokens (the running total of an assigner survives a re-registration)
+			model.Lim[in.Name] = frLimits{Indiv: frLimitCoin(in.Indiv), Total: frLimitCoin(in.Total)}
+			if model.Sum[in.Name] > 0 {
+				h.C("C24", "limits_changed_after_redemptions")
+			}
 		}
 		return
 	}
@@ -736,6 +743,14 @@ func monC24(h *Hist, o *TxnObs) {
 		r.Distinct(fmt.Sprintf("%s|%s|valid=%v|nonce_used=%v|out_of_order=%v", o.Call.Mut, o.Outcome, valid, used, ooo))
 	}
 	if o.Outcome != "success" {
+		// the monitor's own books: a request refused although nothing but the assigner's total stands against it
+		if wire != nil {
+			if lim, ok := model.Lim[wire.Assigner]; ok && valid == false && o.Call.Mut == "over-total-limit" {
+				if coin, okc := frCoin(wire.FreeTokens); okc && coin <= lim.Indiv && model.Sum[wire.Assigner]+coin > lim.Total {
+					h.C("C24", "markers_beyond_own_running_total_refused")
+				}
+			}
+		}
 		return
 	}
 	if !valid {
@@ -775,6 +790,50 @@ func monC24(h *Hist, o *TxnObs) {
 		}
 		model.Nonces[wire.Assigner][wire.Nonce] = true
 		model.Order[wire.Assigner] = append(model.Order[wire.Assigner], wire.Nonce)
+		// limits, from the monitor's OWN books: the grant is the marker's token amount (or what other wallets were actually made
+		// to pay for this request, should that be more); it must fit the individual limit of the assigner's last registration,
+		// and the sum of all grants the monitor saw redeemed under this assigner's name must stay within the registered total
+		// limit. The contract's own CurrentRedeemed plays no part.
+		coin, okc := frCoin(wire.FreeTokens)
+		if !okc || coin == 0 {
+			h.V("C24", "free-marker-without-token-amount-accepted", fmt.Sprintf("marker of assigner %s carries free_tokens %v, which is no positive token amount", short(wire.Assigner), wire.FreeTokens), o)
+		}
+		var paid uint64
+		parts := 0
+		for _, t := range o.Tr {
+			if t.ClientID != o.Txn.ClientID && t.ClientID != storagesc.ADDRESS && t.Amount > 0 {
+				paid += uint64(t.Amount)
+				parts++
+			}
+		}
+		grant := coin
+		if paid > coin {
+			h.V("C24", "grant-paid-above-marker-amount", fmt.Sprintf("marker of assigner %s over %d tokens, but %d tokens were taken from other wallets for it", short(wire.Assigner), coin, paid), o)
+			grant = paid
+		}
+		if parts >= 2 {
+			h.C("C24", "grants_with_read_pool_part_judged")
+		}
+		if lim, ok := model.Lim[wire.Assigner]; ok {
+			sum := model.Sum[wire.Assigner]
+			h.C("C24", "grants_judged_against_own_running_total")
+			if frReadPoolFraction(h, o.Pre) > 0 {
+				h.C("C24", "grants_judged_with_read_pool_fraction_set")
+			}
+			if grant > lim.Indiv {
+				h.V("C24", "grant-above-registered-individual-limit", fmt.Sprintf("assigner %s: grant of %d tokens, individual limit %d", short(wire.Assigner), grant, lim.Indiv), o)
+			}
+			switch {
+			case sum+grant > lim.Total:
+				h.V("C24", "redeemed-grants-sum-above-registered-total-limit", fmt.Sprintf("assigner %s: %d tokens redeemed before (%d markers) + this grant of %d = %d > total limit %d",
+					short(wire.Assigner), sum, len(model.Order[wire.Assigner])-1, grant, sum+grant, lim.Total), o)
+			case sum+grant == lim.Total:
+				h.C("C24", "grants_reaching_total_limit_exactly")
+			case sum+grant+lim.Indiv > lim.Total:
+				h.C("C24", "grants_leaving_less_than_one_full_grant")
+			}
+		}
+		model.Sum[wire.Assigner] += grant
 	}
 	h.C("C24", "redemptions_checked")
 	// assigner bookkeeping in state: redeemed total within the total limit, nonce recorded once
